@@ -913,6 +913,29 @@ where
             self.evict_expired(deqs, batch_size::EVICTION_BATCH_SIZE, counters);
         }
 
+        // Cause probe: the candidate finds no room while an entry whose incarnation has
+        // already left the map (invalidated; its removal op is not applied yet) is
+        // still counted.
+        #[cfg(mini_moka_verif)]
+        if crate::verif::active() && !self.has_enough_capacity(new_weight, counters) {
+            let mut errs = Vec::new();
+            let gone = deqs
+                .probation
+                .verif_walk("probation", &mut errs)
+                .iter()
+                .any(|n| {
+                    let elem = &unsafe { n.as_ref() }.element;
+                    !self
+                        .cache
+                        .get(elem.key())
+                        .map(|e| std::ptr::eq(&**e.entry_info(), elem.entry_info()))
+                        .unwrap_or(false)
+                });
+            if gone {
+                crate::verif::probe("cause.no_room_with_gone_resident", kh.hash);
+            }
+        }
+
         // Cause probe: the candidate still finds no room although a dead (expired or
         // invalidated) entry is held somewhere behind a live one, where the purge
         // scan, which stops at the first live node, cannot reach it.
